@@ -560,7 +560,8 @@ def split_params(toks):
 
 TYMAP = [
     (r"^Result < \( \) , ReserveError >$", "Rs Unit"), (r"^fmt :: Result$", "Rs Unit"), (r"^Self :: Output$", "Handle"),
-    (r"^Option < char >$", "Option Chr"),
+    (r"^Option < char >$", "Option Chr"), (r"^& \[ u8 \]$", "ByteSlice"), (r"^& \[ u16 \]$", "U16Slice"),
+    (r"^Result < Self , str :: Utf8Error >$", "Rs Handle"), (r"^Result < Self , FromUtf16Error >$", "Rs Handle"),
     (r"^Result < Self , ReserveError >$", "Rs Handle"),
     (r"^Result < Option < char > , ReserveError >$", "Rs (Option Chr)"),
     (r"^Result < char , ReserveError >$", "Rs Chr"),
@@ -581,6 +582,16 @@ KEYWORDS = {"end", "at", "from", "do", "then", "fun", "show", "have", "by", "in"
 
 def ident(n):
     return n + "_" if n in KEYWORDS else n
+
+def mentions(e, name):
+    """does the expression tree mention the local `name`?"""
+    if isinstance(e, tuple):
+        if e[:1] == ("path",) and e[1] == [name]:
+            return True
+        return any(mentions(x, name) for x in e[1:])
+    if isinstance(e, list):
+        return any(mentions(x, name) for x in e)
+    return False
 
 class Lower:
     def __init__(self, generated, self_field=False, static_fn=False, rename=None):
@@ -678,6 +689,8 @@ class Lower:
             if p in (["drop"], ["mem", "drop"]):
                 raise Bad("explicit drop")
             name = {"Ok": "rs_Ok", "Err": "rs_Err", "Some": "rs_Some"}.get(p[0], None) if len(p) == 1 else None
+            if len(p) == 2 and p[0] == "LeanString" and p[1] in self.rename:
+                p = ["LeanString", self.rename[p[1]]]
             head = name or ".".join(p)
             wrap = head in self.generated
             return self.args(e[2], lambda as_: self.bindc(self.app(head, as_, wrap), k, ind), ind)
@@ -734,6 +747,9 @@ class Lower:
         if t == "return":
             if e[1] is None:
                 return "ret ()"
+            if self.owned and not mentions(e[1], self.owned):
+                # the owned local is not moved into the returned value: Rust drops it on the way out
+                return self.ex(e[1], lambda a: f"Rt.bind (call (LeanString.drop)) fun _ =>\n{'  ' * ind}ret {a}", ind)
             return self.ex(e[1], lambda a: f"ret {a}", ind)
         if t == "macro":
             if e[1] in ("debug_assert", "debug_assert_eq", "debug_assert_ne"):
@@ -783,7 +799,7 @@ class Lower:
                 v = ident(s[1])
                 rhs = s[2]
                 if (self.static_fn and self.owned is None and rhs[0] == "call" and rhs[1][0] == "path"
-                        and rhs[1][1] in (["LeanString"], ["LeanString", "new"])):
+                        and rhs[1][1] in (["LeanString"], ["LeanString", "new"], ["LeanString", "with_capacity"])):
                     # `let mut buf = LeanString(repr)` in a function without receiver: `buf` is the value under
                     # construction -- the state's `self`; Rust drops it when a later call unwinds
                     def own(a):
@@ -907,6 +923,9 @@ TARGETS = [
     ("lib.rs", "impl FromIterator<char> for LeanString", "from_iter", "LeanString.from_iter_char", True),
     ("lib.rs", "impl<'a> FromIterator<&'a str> for LeanString", "from_iter", "LeanString.from_iter_str", True),
     ("lib.rs", "impl FromIterator<String> for LeanString", "from_iter", "LeanString.from_iter_string", True),
+    ("lib.rs", "impl LeanString", "from_utf8", "LeanString.from_utf8", True),
+    ("lib.rs", "impl LeanString", "from_utf8_lossy", "LeanString.from_utf8_lossy", True),
+    ("lib.rs", "impl LeanString", "from_utf16", "LeanString.from_utf16", True),
 ]
 # expected Lean signatures (used for the stub of a poisoned function, and checked against the source)
 SIGS = {
@@ -940,6 +959,8 @@ SIGS = {
     "LeanString.extend_string": ([("iter", "StrIter")], "Unit"), "LeanString.extend_box": ([("iter", "StrIter")], "Unit"),
     "LeanString.new": ([], "Handle"), "LeanString.from_iter_char": ([("iter", "CharIter")], "Handle"),
     "LeanString.from_iter_str": ([("iter", "StrIter")], "Handle"), "LeanString.from_iter_string": ([("iter", "StrIter")], "Handle"),
+    "LeanString.from_utf8": ([("buf", "ByteSlice")], "Rs Handle"), "LeanString.from_utf8_lossy": ([("buf", "ByteSlice")], "Handle"),
+    "LeanString.from_utf16": ([("buf", "U16Slice")], "Rs Handle"),
 }
 
 # method names that Rust resolves by the argument's type
@@ -947,6 +968,7 @@ RENAMES = {
     "LeanString.from_iter_char": {"push": "push"},
     "LeanString.from_iter_str": {"extend": "extend_str"},
     "LeanString.from_iter_string": {"extend": "extend_string"},
+    "LeanString.from_utf8": {"from": "from_str_ref"},
 }
 
 def pick64(variants):
